@@ -4,10 +4,10 @@ L=$1; shift
 if [ $# -eq 0 ]; then set -- $(ls /tmp/mut | grep "${L}\$" | cut -c1-3); fi
 for p in "$@"; do
   a=${p}${L}
-  for k in m1 m2 r1 r2 r3; do
+  for k in m1 m2 r1 r2 r3 r4 r5; do
     d=/tmp/mut/$a/out/$k
     [ -f $d/patch.diff ] && [ -f $d/demo_test.go ] || { echo "$a-$k MISSING"; continue; }
     [ -f /verif/seeded/$a-$k/meta.json ] && continue
     echo "$a/out/$k"
   done
-done | grep -v MISSING | xargs -P 6 -I{} sh -c 'd={}; p=$(echo $d | cut -c1-3); n=$(echo $d | sed "s#/out/#-#"); kind=breaking; case $d in *r1|*r2|*r3) kind=harmless;; esac; timeout 1500 python3 /verif/tools/confirm_seed.py /tmp/mut/$d $n $p $kind 2>&1 | tail -1 | cut -c1-300'
+done | grep -v MISSING | xargs -P 6 -I{} sh -c 'd={}; p=$(echo $d | cut -c1-3); n=$(echo $d | sed "s#/out/#-#"); kind=breaking; case $d in *r1|*r2|*r3|*r4|*r5) kind=harmless;; esac; timeout 1500 python3 /verif/tools/confirm_seed.py /tmp/mut/$d $n $p $kind 2>&1 | tail -1 | cut -c1-300'
